@@ -84,3 +84,16 @@ claim("C17",
       "Correspondence: name rendering and parser vs the Coq model on every alias, parametric types by instantiation, mangled strings, equality / hash / "
       "Arrow dtype round trip / pickle, declared dtype = storage type after edits (incl. same-kind parametric replacements).",
       NOTE, "Coq proof (string round trip, catalogue discharged by vm_compute) + correspondence check", "DESIGN.md 6/C17")
+claim("C14",
+      "Theorems (Props/C14.v): with pandas' clean_column_name as a PARAMETER (one fact used: its output has no '.'), for EVERY frame schema and every nest / "
+      "field name without '.' and '`' (spaces, punctuation, keywords, cross-layer collisions included), spelled plainly or with backticks around both parts, "
+      "item access, item assignment, reduce, sort_values and dropna resolve the path to that very field, and so does the evaluator route of query / eval; "
+      "literal dotted base column takes precedence in item access; unknown path = error in every reading operation; listing consistent. Correspondence: one "
+      "fresh frame per (17 name patterns x 5 spellings x 7 operations), the touched column observed from data, compared with the Coq resolvers.",
+      NOTE, "Coq proof (path resolvers over strings, cleaner as parameter) + correspondence check on fresh frames", "DESIGN.md 6/C14")
+claim("C16",
+      "Theorems (Props/C16.v): the only per-frame state beside the data is the alias table; with the evaluation in try/finally it is None after ANY history of "
+      "successful / failing evaluations and other operations, so every later path resolution equals that on a fresh frame; the model without the finally is "
+      "refuted by the witness that was a genuine violation of the unrepaired code (fixed). Correspondence: exhaustive prefixes (<=2 quick, <=3 thorough, random "
+      "to 8) over 16 failing / read-only operations followed by 12 probes compared with a fresh equal frame, data snapshot, observed alias state vs the Coq state machine.",
+      NOTE, "Coq proof (state invariant over histories) + exhaustive-prefix correspondence check", "DESIGN.md 6/C16")
